@@ -232,7 +232,12 @@ func checkC01(c *Ctx) {
 			if e.Err != "" {
 				c.Fail(Finding{Sig: "roundtrip-fails", Input: key, What: e.Entry + ": " + e.Err + " (" + f.Path + ")", Replay: obj{"kind": "c01", "path": f.Path}})
 			} else if !bytes.Equal(e.Out, f.Src) {
-				c.Fail(Finding{Sig: "roundtrip-bytes-differ", Input: key, What: e.Entry + ": " + diffAt(f.Src, e.Out) + " (" + f.Path + ")", Replay: obj{"kind": "c01", "path": f.Path}})
+				sig, in := "roundtrip-bytes-differ", key
+				if unindentClosingComments(e.Out) == unindentClosingComments(f.Src) {
+					// the only difference: a comment that stood in the column of the closing bracket below it is indented
+					sig, in = "comment-before-closing-bracket-reindented", "closing-aligned|"+key
+				}
+				c.Fail(Finding{Sig: sig, Input: in, What: e.Entry + ": " + diffAt(f.Src, e.Out) + " (" + f.Path + ")", Replay: obj{"kind": "c01", "path": f.Path}})
 			}
 		}
 		mu.Lock()
@@ -357,7 +362,11 @@ func linkRecord(c *Ctx, prop string, sn string, maxFrags int) (traceItem, int) {
 	}
 	c.Eval("snippet|"+sn, strings.Contains(sn, "//") || strings.Contains(sn, "/*"))
 	if prop == "C01" && printed != nil && !bytes.Equal(printed, []byte(sn)) {
-		c.Fail(Finding{Sig: "roundtrip-bytes-differ", Input: "snippet|" + shortHash(sn), What: "snippet: " + diffAt([]byte(sn), printed), Replay: obj{"kind": "c01snip", "src": sn}})
+		sig, in := "roundtrip-bytes-differ", "snippet|"+shortHash(sn)
+		if unindentClosingComments(printed) == unindentClosingComments([]byte(sn)) {
+			sig, in = "comment-before-closing-bracket-reindented", "closing-aligned|"+in
+		}
+		c.Fail(Finding{Sig: sig, Input: in, What: "snippet: " + diffAt([]byte(sn), printed), Replay: obj{"kind": "c01snip", "src": sn}})
 	}
 	decs := linked.Decs
 	if decs == nil {
@@ -605,6 +614,10 @@ func c01Dirs(c *Ctx) {
 		}
 		for j := range cs {
 			if !bytes.Equal(rs[i].out[j], cs[j]) {
+				if unindentClosingComments(rs[i].out[j]) == unindentClosingComments(cs[j]) {
+					c.Fail(Finding{Sig: "comment-before-closing-bracket-reindented", Input: "closing-aligned|" + key, What: fmt.Sprintf("ParseDir, file f%d.go: %s", j, diffAt(cs[j], rs[i].out[j])), Replay: obj{"kind": "c01dir", "srcs": srcs}})
+					continue
+				}
 				c.Fail(Finding{Sig: "roundtrip-bytes-differ", Input: key, What: fmt.Sprintf("ParseDir on a directory of %d files, file f%d.go: %s", len(cs), j, diffAt(cs[j], rs[i].out[j])), Replay: obj{"kind": "c01dir", "srcs": srcs}})
 				break
 			}
@@ -730,4 +743,26 @@ func c01ListFields(c *Ctx) {
 	})
 	c.Set("list_field_layouts_round_tripped", tested)
 	c.Set("list_field_layouts_not_canonical", skipped)
+}
+
+// unindentClosingComments strips the indentation of // comment lines that are directly followed (possibly
+// after further comment lines) by a line that starts with a closing bracket.
+func unindentClosingComments(b []byte) string {
+	lines := strings.Split(string(b), "\n")
+	for i := range lines {
+		if !strings.HasPrefix(strings.TrimSpace(lines[i]), "//") {
+			continue
+		}
+		j := i + 1
+		for j < len(lines) && strings.HasPrefix(strings.TrimSpace(lines[j]), "//") {
+			j++
+		}
+		if j < len(lines) {
+			t := strings.TrimSpace(lines[j])
+			if strings.HasPrefix(t, ")") || strings.HasPrefix(t, "}") || strings.HasPrefix(t, "]") {
+				lines[i] = strings.TrimSpace(lines[i])
+			}
+		}
+	}
+	return strings.Join(lines, "\n")
 }
